@@ -113,3 +113,32 @@ def replay_payload(pid, payload):
         return 1
     print("replay: no mismatch")
     return 0
+
+
+VBASE = {"Scenes": {1}, "Slots": {1, 2}, "Confs": {900, 800}, "Cids": {0}, "Metric": "iou", "Thr": 300, "MinConf": 50,
+         "MaxIdle": 2, "H": 2, "NShards": 2, "Feats": {1, 2, 3}, "Quals": {30, 70, 90}, "MaxObs": 2, "MinTrackLen": 1,
+         "MinVotes": 1, "QUse": 50, "QCollect": 60, "VisThr": 35, "Periods": {0}, "MaxDets": 2, "Sim": 0,
+         "Kind": "simple", "LifecycleOps": False}
+
+
+def generate_visual(chk, name, depth, simulate=None, timeout=900, **kw):
+    c = dict(VBASE)
+    c.update({"D": depth})
+    c.update(kw)
+    cfg = vlib.write_cfg(chk.workdir / f"{name}.cfg", c, spec="GSpec", invariants=["Emit", "VisInv"])
+    r = vlib.tlc(T / "GenVis.tla", cfg, name, chk.workdir, workers=8, timeout=timeout, simulate=simulate,
+                 seed=chk.seed if simulate else None)
+    vlib.tlc_must_pass(r, name)
+    chk.add_tlc(name, r)
+    return r, c
+
+
+def replay_visual(chk, name, r, c, kind, shards, focus, nt_key, voters=2, stride=1, extra=()):
+    args = vh_args(c, kind, shards, focus, voters) + ["--max-obs", str(c["MaxObs"]), "--min-track-len", str(c["MinTrackLen"]),
+            "--min-votes", str(c["MinVotes"]), "--q-use", str(c["QUse"] / 100.0), "--q-collect", str(c["QCollect"] / 100.0),
+            "--vis-thr", str(c["VisThr"] / 10.0)] + list(extra)
+    rep = vlib.run_vh(args, [r.out], stride=stride)
+    rep["nontrivial"] = rep["counters"].get(nt_key, 0)
+    chk.add_report(f"{name}:{kind}:shards={shards}", rep)
+    chk.classify("tracker", args, rep)
+    return rep
